@@ -2,7 +2,10 @@
 
 package blocklist
 
-import "sort"
+import (
+	"sort"
+	"sync/atomic"
+)
 
 // Thin accessors injected with `go test -overlay` by /verif for property C18
 // (never committed to the repository).
@@ -48,7 +51,27 @@ func (b *BlockList) VerifSetLists(m, wild, w []string) {
 // VerifVersions reads the snapshot counters without their locks. Only sound
 // while every goroutine mutating the list is parked (gated schedule replay).
 func (b *BlockList) VerifVersions() (version, lastPersisted uint64) {
-	return b.version, b.lastPersisted
+	return verifU64(&b.version), verifU64(&b.lastPersisted)
+}
+
+// verifU64 reads a counter whether the tree under test keeps it as a plain or
+// as an atomic word (a change of representation alone is not a finding).
+func verifU64(p any) uint64 {
+	switch x := p.(type) {
+	case *uint64:
+		return *x
+	case *atomic.Uint64:
+		return x.Load()
+	case *uint32:
+		return uint64(*x)
+	case *atomic.Uint32:
+		return uint64(x.Load())
+	case *int64:
+		return uint64(*x)
+	case *atomic.Int64:
+		return uint64(x.Load())
+	}
+	panic("verif: unknown counter representation")
 }
 
 // VerifSaveMuFree reports whether the persistence lock is currently free.
